@@ -7,6 +7,7 @@ import (
 	"go/types"
 	"math"
 	"math/big"
+	"strings"
 
 	"golang.org/x/tools/go/ssa"
 )
@@ -15,7 +16,7 @@ func init() {
 	props["C10"] = &propInfo{Level: "other", Explanation: "Decides structural necessary conditions of 'exact inverses, no silent truncation': (R10.1) every narrowing integer conversion in internal/decode (int64->int32/int16, int32->int16, uint64->uint32/uint16, uint32->uint16) is proved value-preserving by the bounds engine from the range guards that dominate it - a missing, off-by-one or wrap-prone guard leaves the obligation undischarged; (R10.2) the float64->float32 narrowing is reached only through magnitude guards that let exactly the infinities through: on every path the value is either within +-MaxFloat32 or math.IsInf with the matching sign was true, and both infinity paths do reach the conversion (IEEE: +Inf > MaxFloat32, so a guard without the exemption rejects a representable value); (R10.3) per scalar encoder the returned size equals the bytes grown and the type byte written is the type's own code. Not decided: value-level inversion over the whole domains; the varint arithmetic of the dependency.",
 		Trusted: []string{"bounds engine (see C02)", "math.IsInf(f, sign) semantics"}}
 
-	register(&Rule{ID: "R10.1", Props: []string{"C10", "C08"}, Floor: 4,
+	register(&Rule{ID: "R10.1", Props: []string{"C10", "C08", "C11"}, Floor: 4,
 		Doc: "guarded narrowing: every narrowing integer Convert in internal/decode is proved in range of the target type",
 		Run: runR10_1})
 	register(&Rule{ID: "R10.2", Props: []string{"C10"}, Floor: 1,
@@ -25,11 +26,11 @@ func init() {
 
 // narrowing conversions that are safe for a reason outside the function (one line each)
 var r10Reviewed = map[string]string{
-	"internal/encode.EncodeListTable/narrow-int-to-uint32#1":       "dataSize is end-start of the writer's list entry (>= 0: the buffer only grows while the list is open, R12.7 I2) and was checked against MaxSize above",
-	"internal/encode.EncodeListTable/narrow-int-to-uint32#2":       "tableSize is the size returned by encodeListTable = len(table)*entry size >= 0, bounded by MaxSize there",
-	"internal/encode.EncodeMessageTable/narrow-int-to-uint32#1":    "dataSize is end-start of the writer's message entry (>= 0, R12.7 I2), checked against MaxSize above",
-	"internal/encode.EncodeMessageTable/narrow-int-to-uint32#2":    "tableSize is the size returned by encodeMessageTable = len(table)*entry size >= 0, bounded by MaxSize there",
-	"internal/encode.EncodeStruct/narrow-int-to-uint32#1":          "dataSize is the sum of the sizes reported by the field encoders (each >= 0, R10.3), checked against MaxSize above",
+	"internal/encode.EncodeListTable/narrow-int-to-uint32#1":    "dataSize is end-start of the writer's list entry (>= 0: the buffer only grows while the list is open, R12.7 I2) and was checked against MaxSize above",
+	"internal/encode.EncodeListTable/narrow-int-to-uint32#2":    "tableSize is the size returned by encodeListTable = len(table)*entry size >= 0, bounded by MaxSize there",
+	"internal/encode.EncodeMessageTable/narrow-int-to-uint32#1": "dataSize is end-start of the writer's message entry (>= 0, R12.7 I2), checked against MaxSize above",
+	"internal/encode.EncodeMessageTable/narrow-int-to-uint32#2": "tableSize is the size returned by encodeMessageTable = len(table)*entry size >= 0, bounded by MaxSize there",
+	"internal/encode.EncodeStruct/narrow-int-to-uint32#1":       "dataSize is the sum of the sizes reported by the field encoders (each >= 0, R10.3), checked against MaxSize above",
 }
 
 func runR10_1(c *Ctx, outer *R) {
@@ -37,12 +38,20 @@ func runR10_1(c *Ctx, outer *R) {
 	// is also C08's (reference-encoded bytes are read back identically)
 	r := &R{c: c, rule: &Rule{ID: outer.rule.ID, Props: []string{"C10"}}}
 	rFull := &R{c: c, rule: &Rule{ID: outer.rule.ID, Props: []string{"C10", "C08"}}}
-	defer func() { outer.n += r.n + rFull.n }()
+	// the decoders also read the handshake and every frame header of the mpx protocol (version, code, window): a
+	// value reduced modulo 2^32 instead of rejected lets a peer negotiate a version nobody supports (C11)
+	rDec := &R{c: c, rule: &Rule{ID: outer.rule.ID, Props: []string{"C10", "C11"}}}
+	rEnc := r
+	defer func() { outer.n += rEnc.n + rDec.n + rFull.n }()
 	e := newBE(c)
 	var fns []*ssa.Function
 	fns = append(fns, c.SrcFuncs("internal/decode")...)
 	fns = append(fns, c.SrcFuncs("internal/encode")...)
 	for _, fn := range fns {
+		r := rEnc
+		if fn.Pkg != nil && strings.HasSuffix(fn.Pkg.Pkg.Path(), "internal/decode") {
+			r = rDec
+		}
 		fc := e.newFnCtx(fn)
 		n := 0
 		allInstrs(fn, func(i ssa.Instruction) {
